@@ -33,6 +33,24 @@ Fixpoint cmpl (exact : bool) (gs qs mags : list Q) : bool :=
   end.
 
 (** ---------------------------------------------------------------------------------------------- K1 *)
+(** SVG transform-list semantics (SVG 1.1 par. 7.6): the list denotes the product of its items, left to right;
+    matrix(a,b,c,d,e,f) = rows {a,c,e},{b,d,f}; rotate carries the cos/sin of its printed angle (supplied). *)
+Inductive svgop := STr (x y : Q) | SRot (c s : Q) | SSc (sx sy : Q) | SMat (a b c d e f : Q).
+Definition svg_mat (o : svgop) : mat :=
+  match o with
+  | STr x y => mkM 1 0 x 0 1 y
+  | SRot c s => mkM c (- s) 0 s c 0
+  | SSc sx sy => mkM sx 0 0 0 sy 0
+  | SMat a b c d e f => mkM a c e b d f
+  end.
+Definition svg_list (l : list svgop) : mat := fold_left (fun acc o => mmul acc (svg_mat o)) l mid.
+(** what the text must denote: the y-down image of m on a page of height h, S = F_h . m . F_0 with F_k (x,y) = (x, k - y) *)
+Definition svg_expected (m : mat) (h : Q) : mat := mkM (ma m) (- mb m) (mc m) (- md m) (me m) (h - mf m).
+
+Lemma svg_expected_spec m h p :
+  pteq (mdot (svg_expected m h) p) (let q := mdot m (fst p, - snd p) in (fst q, h - snd q)).
+Proof. unfold svg_expected, mdot, pteq; cbn [ma mb mc md me mf fst snd]. split; ring. Qed.
+
 Record kmat := mkK {
   k_exact : bool;                         (* generator guarantees exact binary64 arithmetic for the chain methods *)
   k_a : mat; k_b : mat; k_p : qpt;
@@ -40,7 +58,9 @@ Record kmat := mkK {
   k_c : Q; k_s : Q;                       (* cos/sin the Go code used for Rotate (supplied, relation checked) *)
   k_outs : list (list Q);                 (* Go results, fixed order, see [model_outs] *)
   k_inv : list Q;                         (* Inv: [] when Go panicked *)
-  k_dec : list Q                          (* Decompose: tx ty sx sy cos(phi) sin(phi) cos(theta) sin(theta); [] if skipped *)
+  k_dec : list Q;                         (* Decompose: tx ty sx sy cos(phi) sin(phi) cos(theta) sin(theta); [] if skipped *)
+  k_h : Q;                                (* the page height handed to ToSVG *)
+  k_svg : option (list svgop)             (* the parsed text of a.ToSVG(h); None if skipped / unparsable *)
 }.
 
 Definition model_outs (k : kmat) : list (list Q) :=
@@ -51,7 +71,9 @@ Definition model_outs (k : kmat) : list (list Q) :=
     mlist (mscale_about a (k_sx k) (k_sy k) (k_x k) (k_y k)); mlist (mshear_about a (k_sx k) (k_sy k) (k_x k) (k_y k));
     mlist (mreflectx_about a (k_x k)); mlist (mreflecty_about a (k_y k));
     mlist (mT a); [mdet a];
-    mlist (mrotate_cs a (k_c k) (k_s k)); mlist (mrotate_about_cs a (k_c k) (k_s k) (k_x k) (k_y k)) ].
+    mlist (mrotate_cs a (k_c k) (k_s k)); mlist (mrotate_about_cs a (k_c k) (k_s k) (k_x k) (k_y k));
+    (* Rect{x, y, x+|sx|, y+|sy|}.Transform(a) *)
+    (let '(u0, v0, u1, v1) := rect_transform a (k_x k) (k_y k) (k_x k + Qabs (k_sx k)) (k_y k + Qabs (k_sy k)) in [u0; v0; u1; v1]) ].
 
 (** magnitudes: the same chains on absolute values (an upper bound of the sum of |terms| of every entry) *)
 Definition mag_outs (k : kmat) : list (list Q) :=
@@ -66,7 +88,8 @@ Definition mag_outs (k : kmat) : list (list Q) :=
     ch [T; mkM sx 0 0 0 sy 0; T]; ch [T; mkM 1 sx 0 sy 1 0; T];
     ch [mkM 1 0 x 0 1 0; mkM 1 0 0 0 1 0; mkM 1 0 x 0 1 0]; ch [mkM 1 0 0 0 1 y; mkM 1 0 0 0 1 0; mkM 1 0 0 0 1 y];
     mlist a; [Qabs (ma (k_a k) * me (k_a k)) + Qabs (mb (k_a k) * md (k_a k))];
-    ch [mkM c s 0 s c 0]; ch [T; mkM c s 0 s c 0; T] ].
+    ch [mkM c s 0 s c 0]; ch [T; mkM c s 0 s c 0; T];
+    (let g := mdot a (x + sx, y + sy) in [fst g; snd g; fst g; snd g]) ].
 
 Fixpoint closel (tol : Q) (gs qs mags : list Q) : bool :=
   match gs, qs, mags with
@@ -84,7 +107,7 @@ Fixpoint cmpll (exacts : list bool) (gs qs ms : list (list Q)) : bool :=
 
 (** Rotate / RotateAbout are never exact (cos/sin are not on the grid) *)
 Definition exacts (k : kmat) : list bool :=
-  let e := k_exact k in [e; e; e; e; e; e; e; e; e; e; e; true; e; false; false].
+  let e := k_exact k in [e; e; e; e; e; e; e; e; e; e; e; true; e; false; false; e].
 
 Definition maxabs (m : mat) : Q := fold_left Qmax (map Qabs (mlist m)) 1.
 
@@ -126,16 +149,34 @@ Definition dec_prop (k : kmat) : bool * bool :=
   | _ => (true, true)
   end.
 
+(** ToSVG: (relations ok, text denotes S, text denotes S once translate(0,h) is put in front) *)
+Definition svg_prop (k : kmat) : bool * bool * bool :=
+  match k_svg k with
+  | None => (true, true, false)
+  | Some l =>
+      let rel := forallb (fun o => match o with SRot c s => unit_rel c s | _ => true end) l in
+      let S := svg_expected (k_a k) (k_h k) in
+      let mg := 1 + maxabs S in
+      let eqm (g : mat) := forallb (fun '(x, y) => close tol20 mg x y) (combine (mlist g) (mlist S)) in
+      let g := svg_list l in
+      (rel, eqm g, eqm (mmul (mkM 1 0 0 0 1 (k_h k)) g))
+  end.
+
 (** flags: 1 tie (a method differs from the model), 256 Inv is not an inverse, 512 Decompose does not recompose,
-    1024 a supplied cos/sin pair violates c^2+s^2=1, 2 tie on Inv *)
+    1024 a supplied cos/sin pair violates c^2+s^2=1, 2 tie on Inv, 16384 the ToSVG text denotes a different transformation,
+    32768 ... but becomes right when translate(0,h) is put in front, for a matrix without translation and h <> 0 *)
 Definition judge_k (k : kmat) : list Z :=
   let tie := negb (cmpll (exacts k) (k_outs k) (model_outs k) (mag_outs k)) in
   let tinv := negb (inv_tie k) in
   let pinv := negb (inv_prop k) in
   let '(rel, dp) := dec_prop k in
   let relr := unit_rel (k_c k) (k_s k) in
-  [ (bit tie 1 + bit tinv 2 + bit pinv 256 + bit (negb dp) 512 + bit (negb (rel && relr)) 1024)%Z;
-    (if k_exact k then 1 else 0)%Z; 17%Z ].
+  let '(srel, sok, sfix) := svg_prop k in
+  let notr := Qeq_bool (mc (k_a k)) 0 && Qeq_bool (mf (k_a k)) 0 && negb (Qeq_bool (k_h k) 0) in
+  let sdrop := negb sok && sfix && notr in
+  [ (bit tie 1 + bit tinv 2 + bit pinv 256 + bit (negb dp) 512 + bit (negb (rel && relr && srel)) 1024 +
+     bit (negb sok && negb sdrop) 16384 + bit sdrop 32768)%Z;
+    (if k_exact k then 1 else 0)%Z; 18%Z ].
 
 (** ---------------------------------------------------------------------------------------------- K2 *)
 Record garc := mkGA {
@@ -282,3 +323,6 @@ Definition judge_p (p : kpath) : list Z :=
 Inductive case07 := CK (k : kmat) | CP (p : kpath).
 Definition judge (c : case07) : list Z :=
   match c with CK k => judge_k k | CP p => judge_p p end.
+
+Example pts_ok_exact_ex : pts_ok true (mkM 0 (-1) 2 1 0 0) [(1, 2); (3, 4)] [(0, 1); (-2, 3)] = true.
+Proof. vm_compute. reflexivity. Qed.
